@@ -43,8 +43,16 @@ def check_fracture(ctx, db):
     t = norm(clone.canon(inh, f, ren=ren))
     rk = lvalue_key(next(x for x in f.walk() if x.k == 'DeclRefExpr' and x.dk == 'param' and x.n == f.params[2]['n'])) if len(f.params) >= 3 else None
     trip = LP.Loop(f, inh).trip()
-    ok = trip is not None and rk is not None and trip == {rk + '.count': 1} and '->tag = this->tag)' in t and \
-        '->repetition.copy_from(Repetition{this->repetition})' in t and '->properties = properties_copy(this->properties))' in t
+    def _this_member(e, name):
+        return any(m_.k == 'MemberExpr' and m_.n == name and _strip_casts(m_.child('base')) is not None and _strip_casts(m_.child('base')).k == 'CXXThisExpr' for m_ in e.walk())
+
+    def _piece_member(e, name):
+        e = _strip_casts(e)
+        return e is not None and e.k == 'MemberExpr' and e.n == name and e.arrow and not _this_member(e, name)
+    has_tag = any(is_assign(x) and _piece_member(x.child('lhs'), 'tag') and _this_member(x.child('rhs'), 'tag') for x in inh.walk())
+    has_rep = any(c.k == 'CXXMemberCallExpr' and (c.callee or '').endswith('Repetition::copy_from') and c.child('obj') is not None and _piece_member(c.child('obj'), 'repetition') and c.args and _this_member(c.args[0], 'repetition') for c in inh.walk())
+    has_prop = any(is_assign(x) and _piece_member(x.child('lhs'), 'properties') and any(c.k == 'CallExpr' and (c.callee or '').endswith('properties_copy') and c.args and _this_member(c.args[0], 'properties') for c in x.child('rhs').walk()) for x in inh.walk())
+    ok = trip is not None and rk is not None and trip == {rk + '.count': 1} and has_tag and has_rep and has_prop
     ctx.check(ok, 'R-COPY', 'fracture/pieces-inherit', inh.loc(), 'every piece receives the tag, a deep copy of the repetition and of the properties', 'inheritance loop (trip %s): %s' % (trip, t[:300]))
     # work loop progress, decided on the CFG: a piece over the limit is removed at the current index (remove_unordered moves the last,
     # unexamined piece into that slot), so no increment of the index may be reachable from the removal before the loop test; the
